@@ -109,3 +109,19 @@ def chain(chain_id, level):
     if level > 0:
         part._merge_parent = chain(chain_id, level - 1)
     return part
+
+
+# ---- functions that are passed around as argument values (C04, C11) -----------------------
+@m.memento_function(version="r1")
+def callee2(a, b=None):
+    return REC.tick("callee2", a, b)
+
+
+@m.memento_function(version="r2")
+def callee3(p, q, r=0):
+    return REC.tick("callee3", p, q, r)
+
+
+@m.memento_function(cluster="c", version="r3")
+def ccallee(x, y=1):
+    return REC.tick("ccallee", x, y)
